@@ -87,11 +87,6 @@ def _(self, resource_query):
     ensures(state_wf(result.metadata))
 
 
-@assumed("liquer.state.State.next_state", params=dict(self=ST), returns=ST, returns_fresh=True)
-def _(self):
-    ensures(fresh_ref(result) and result.metadata == self.metadata)
-
-
 module_state("liquer.cache", dict(_cache=Ref("Cache")))
 
 
